@@ -317,10 +317,11 @@ func (c *Ctx) subsDifferential() {
 		p := rueidis.VerifBarePipe(nil)
 		c.Emit("hreset", "ok", false)
 		var chs []<-chan error
+		seenErrs := map[int][]string{} // errors read so far, per channel (a read consumes them)
 		state := func() string {
 			parts := make([]string, len(chs))
 			for i, ch := range chs {
-				var errs []string
+				errs := seenErrs[i]
 				closes := 0
 				for done := false; !done; {
 					select {
@@ -334,19 +335,49 @@ func (c *Ctx) subsDifferential() {
 						done = true
 					}
 				}
+				seenErrs[i] = errs
 				parts[i] = fmt.Sprintf("[%s|%d|0]", strings.Join(errs, ","), closes)
 			}
 			return strings.Join(parts, " ")
 		}
-		for i := 0; i < 6; i++ {
-			if c.Rng.IntN(3) != 0 {
-				chs = append(chs, p.SetPubSubHooks(rueidis.PubSubHooks{OnMessage: func(rueidis.PubSubMessage) {}}))
-				c.Emit("hswap", state(), true)
-			} else {
-				p.SetPubSubHooks(rueidis.PubSubHooks{})
-				c.Emit("hempty -", state(), true)
+		dead := false
+		verdict := "ok"
+		safely := func(op string, f func()) {
+			defer func() {
+				if r := recover(); r != nil {
+					verdict = fmt.Sprint("panic:", r)
+					c.Fail("pubsub:hook-channel-closed-twice", op, fmt.Sprintf("SetPubSubHooks panicked (%v): a channel it handed out was closed or sent to after its close", r))
+				}
+			}()
+			f()
+		}
+		errName := func(s string) string { return strings.ReplaceAll(s, rueidis.ErrClosing.Error(), "closing") }
+		for i := 0; i < 7 && verdict == "ok"; i++ {
+			switch r := c.Rng.IntN(8); {
+			case r == 0 && !dead:
+				p.Close() // the connection fails: p.Error() != nil from now on
+				dead = true
+				c.Hit("hooks:pipe-failed")
+				continue
+			case r < 6:
+				op := "hswap"
+				if dead {
+					op = "hswapdead closing"
+				}
+				safely(op, func() {
+					chs = append(chs, p.SetPubSubHooks(rueidis.PubSubHooks{OnMessage: func(rueidis.PubSubMessage) {}}))
+				})
+				if verdict == "ok" {
+					c.Emit(op, errName(state()), true)
+				}
+			default:
+				safely("hempty -", func() { p.SetPubSubHooks(rueidis.PubSubHooks{}) })
+				if verdict == "ok" {
+					c.Emit("hempty -", errName(state()), true)
+				}
 			}
 		}
+		c.Emit("!hooks-invariant", verdict, false)
 	}
 }
 
@@ -652,7 +683,68 @@ func (c *Ctx) pubsubOrphan(kind int, how string) {
 	go func() { a.Close(); b.Close(); srv.Close() }() // Close may block behind a stuck reader: do not wait for it
 }
 
+// hooksAfterDisconnect: SetPubSubHooks on a real pipe whose connection already failed, called
+// repeatedly (replace, replace, clear): every returned channel carries exactly one error and is then
+// closed, nothing panics.
+func (c *Ctx) hooksAfterDisconnect() {
+	bg := context.Background()
+	srv := fakeredis.New(fakeredis.Options{})
+	defer srv.Close()
+	cl, err := rueidis.NewClient(rueidis.ClientOption{InitAddress: []string{"fake:1"}, DialCtxFn: srv.Dial, ForceSingleClient: true, PipelineMultiplex: -1, DisableRetry: true})
+	if err != nil {
+		panic(err)
+	}
+	defer cl.Close()
+	dc, release := cl.Dedicate()
+	defer release()
+	first := dc.SetPubSubHooks(rueidis.PubSubHooks{OnMessage: func(rueidis.PubSubMessage) {}}) // starts the reader
+	dc.Do(bg, dc.B().Ping().Build())
+	conn := srv.NumConns()
+	srv.Kill(conn)
+	select { // the clean-up after the disconnect reports to the installed hooks
+	case e := <-first:
+		if e == nil {
+			c.Fail("pubsub:hook-channel-closed-twice", "hooks-after-disconnect", "the channel of the hooks installed before the disconnect was closed without an error")
+		}
+	case <-time.After(2 * time.Second):
+		c.Fail("pubsub:hook-channel-not-closed", "hooks-after-disconnect", "no error on the hook channel 2 s after the disconnect")
+	}
+	verdict := "ok"
+	for i := 0; i < 3 && verdict == "ok"; i++ {
+		func() {
+			defer func() {
+				if r := recover(); r != nil {
+					verdict = fmt.Sprint("panic:", r)
+				}
+			}()
+			h := rueidis.PubSubHooks{OnMessage: func(rueidis.PubSubMessage) {}}
+			if i == 2 {
+				h = rueidis.PubSubHooks{}
+			}
+			ch := dc.SetPubSubHooks(h)
+			if ch == nil {
+				return
+			}
+			n := 0
+			for e := range ch {
+				if e != nil {
+					n++
+				}
+			}
+			if n != 1 {
+				verdict = fmt.Sprintf("errors=%d", n)
+			}
+		}()
+	}
+	c.Emit("!hooks-invariant", verdict, true)
+	if verdict != "ok" {
+		c.Fail("pubsub:hook-channel-closed-twice", "hooks-after-disconnect", "SetPubSubHooks on a failed connection, called again: "+verdict)
+	}
+	c.Hit("hooks-after-disconnect")
+}
+
 func (c *Ctx) pubsubE2E() {
+	c.hooksAfterDisconnect()
 	for kind := 0; kind < 3; kind++ {
 		for _, how := range []string{"errreply", "ctxdone"} {
 			c.pubsubOrphan(kind, how)
